@@ -190,6 +190,70 @@ def torrent (j : Json) : Except String Json := do
   let hyp := validHash ih && (match xl with | some n => decide (1 ≤ n) | none => true)
   return jobj [("model", jexc jout m), ("spec", jout (specTorrent ofStr ofInt ih f adopted)), ("hyp", jbool hyp)]
 
+def trOf (j : Json) : Except String (List (Str × Str)) := do
+  (← getArr j "tr").mapM fun t => do
+    let a ← t.getArr?
+    match a.toList with
+    | [s, n] => do pure ((← cpsOfJson s), (← cpsOfJson n))
+    | _ => throw "tr: pairs expected"
+
+def sourcesOf (j : Json) : Except String Sources := do
+  pure { xs := (← getOptCps j "xs"), as_ := (← getOptCps j "as_"), ws := (← getCpsList j "ws"), tr := (← trOf j) }
+
+def actOf (j : Json) : Except String Act := do
+  let k ← getStr j "k"
+  match k with
+  | "xt" | "infohash" => do pure (Act.hash (← stepOf k (← getCps j "v")))
+  | "xs" => do pure (Act.setXs (← getOptCps j "v"))
+  | "as_" => do pure (Act.setAs (← getOptCps j "v"))
+  | "ws" => do pure (Act.setWs (← getCpsList j "v"))
+  | "tr" => do pure (Act.setTr (← trOf j))
+  | "urlRejected" => pure Act.urlRejected
+  | _ => throw s!"act kind {k}"
+
+def visitOf (j : Json) : Except String Visit := do
+  pure { during := (← (← getArr j "during").mapM actOf), inCb := (← (← getArr j "inCb").mapM actOf) }
+
+/-- the world of one call: `[[url prefix, served], …]`, first matching prefix wins, nothing matches ⇒ the
+    download fails (404) -/
+def worldOf (j : Json) : Except String (Str → Served) := do
+  let entries ← (← getArr j "world").mapM fun e => do
+    match (← e.getArr?).toList with
+    | [k, s] => do pure ((← cpsOfJson k), (← servedOf s))
+    | _ => throw "world: pairs expected"
+  pure fun u => match entries.find? (fun p => p.1.isPrefixOf u) with
+    | some p => p.2
+    | none => Served.connError
+
+def jsources (s : Sources) : Json :=
+  jobj [("xs", jopt jcps s.xs), ("as_", jopt jcps s.as_), ("ws", jarr (s.ws.map jcps)),
+        ("tr", jarr (s.tr.map fun t => jarr [jcps t.1, jcps t.2]))]
+
+def jrun (r : Run) : Json :=
+  jobj [("err", jerr r.err), ("hash", jopt jcps r.st.m.hash), ("info", jopt jcps r.st.m.info),
+        ("src", jsources r.st.src), ("requested", jarr (r.requested.map jcps)), ("cbs", jarr (r.cbs.map jcps)),
+        ("thr", jarr (r.thr.map fun l => jarr (l.map jerr))), ("torrent", jobs (convertM r.st.m)),
+        ("ok", jbool (decide (GOk r.st)))]
+
+/-- `c14.running`: `get_info()` calls on one object with operations by the callback / another thread at
+    given source positions: code-shaped model (`codeSem`) and specification (`specSem`).
+    `hyp` = the object holds a valid hash (`C14_getinfo_running_spec`: model = spec);
+    `hypAdopt` = … its metadata denotes it and every call validates (`C14_adopt_current_hash_calls`:
+    every `ok` of the model is true). -/
+def running (j : Json) : Except String Json := do
+  let ih ← getOptCps j "ih"
+  let info ← getOptCps j "info"
+  let src ← sourcesOf j
+  let calls ← (← getArr j "calls").mapM fun c => do
+    pure ({ validate := (← getBool c "validate"), hasCb := (← getBool c "hasCb"), world := (← worldOf c),
+            visits := (← (← getArr c "visits").mapM visitOf) } : Call)
+  let st : GState := { m := { hash := ih, info := info }, src := src }
+  let m := runCalls codeSem st calls
+  let s := runCalls specSem st calls
+  return jobj [("model", jarr (m.1.map jrun)), ("spec", jarr (s.1.map jrun)),
+               ("hyp", jbool (decide (HashOk st))),
+               ("hypAdopt", jbool (decide (GOk st) && callsValidated calls))]
+
 def handle (op : String) (j : Json) : Except String Json :=
   match op with
   | "c14.hash" => hash j
@@ -199,6 +263,7 @@ def handle (op : String) (j : Json) : Except String Json :=
   | "c14.urls" => urls j
   | "c14.getinfo" => getinfo j
   | "c14.torrent" => torrent j
+  | "c14.running" => running j
   | _ => throw s!"unknown op {op}"
 
 end Driver.C14
